@@ -18,17 +18,6 @@ func init() {
 	register("c16", runC16)
 }
 
-var quirkTag = map[int]string{1: "local_sets_reference", 2: "ts_zero_no_reference"}
-
-// classify a spec mismatch: a known-finding tag when the model reproduces the
-// implementation and raised a quirk on this input, else the generic tag.
-func classify(generic string, agrees bool, model decOut) string {
-	if agrees && len(model.Quirks) > 0 {
-		return quirkTag[model.Quirks[0]]
-	}
-	return generic
-}
-
 type streamCase struct {
 	s  *stream
 	rs readerSpec
@@ -36,10 +25,6 @@ type streamCase struct {
 
 // decodeAndJudge runs one stream through Decode (implementation + model),
 // records correspondence, evaluates the reference semantics and reports.
-// timeQuirksInScope: only C12 judges executions that enter the recorded time-rule defects;
-// for the other properties such streams are checked for correspondence only.
-var timeQuirksInScope = false
-
 func decodeAndJudge(r *report, w *world, c streamCase, o optSet, tagPrefix string, requireSuccess bool) (impl, model decOut, sr specResult, ok bool) {
 	impl, model, err := w.decode("D", o, c.rs)
 	if err != nil {
@@ -66,19 +51,15 @@ func decodeAndJudge(r *report, w *world, c streamCase, o optSet, tagPrefix strin
 		return impl, model, sr, true
 	}
 	r.hist("in_domain")
-	if len(model.Quirks) > 0 && !timeQuirksInScope {
-		r.hist("time_rule_defect_path_left_to_C12")
-		return impl, model, sr, true
-	}
 	if impl.ErrClass != 0 {
 		if requireSuccess {
-			r.specFail(classify(tagPrefix+"rejects_wellformed", agrees, model), fmt.Sprintf("Decode rejects a well-formed stream compatible with the profile: %s\n    records: %.600s", impl.ErrText, c.s.specArgs()), rep)
+			r.specFail(tagPrefix+"rejects_wellformed", fmt.Sprintf("Decode rejects a well-formed stream compatible with the profile: %s\n    records: %.600s", impl.ErrText, c.s.specArgs()), rep)
 		}
 		return impl, model, sr, true
 	}
 	if len(impl.Raw) == 1 && impl.Raw[0] != nil {
 		if diff := compareFileWithSpec(impl.Raw[0], sr); diff != "" {
-			r.specFail(classify(tagPrefix+"value", agrees, model), diff+fmt.Sprintf("\n    records: %.600s", c.s.specArgs()), rep)
+			r.specFail(tagPrefix+"value", diff+fmt.Sprintf("\n    records: %.600s", c.s.specArgs()), rep)
 		}
 	}
 	return impl, model, sr, true
@@ -159,7 +140,10 @@ func put32(be bool, v uint32) []byte {
 
 // genTimeStream: explicit timestamps, compressed-timestamp records (all 32
 // offsets, rollovers, long runs) and local timestamps, both byte orders.
-func genTimeStream(rg *rng, st genStats, withQuirks bool) *stream {
+// genTimeStream: time sequences. Timestamp 0, power-on-relative references, local timestamps without a reference
+// and references that wrap 2^32 (the paths of the two C12 defects repaired by ac9b0b0 / 2f21531) are ordinary
+// members of the domain and are produced in the one stream there is.
+func genTimeStream(rg *rng, st genStats) *stream {
 	s := &stream{HdrSize: 14, Proto: 0x20, Profile: 2115, HdrCRC: "ok"}
 	be := rg.bool()
 	arch := byte(0)
@@ -209,19 +193,15 @@ func genTimeStream(rg *rng, st genStats, withQuirks bool) *stream {
 			case 0:
 				v = 0xFFFFFFFF
 			case 1:
-				if withQuirks {
-					v = 0
-				}
+				v = 0
+				st["timestamp_zero"]++
 			case 2:
-				if withQuirks {
-					v = uint32(1 + rg.intn(0x0FFFFFFF)) // seconds since power on
-				}
+				v = uint32(1 + rg.intn(0x0FFFFFFF)) // seconds since power on
+				st["power_on_relative_references"]++
 			case 3:
-				if withQuirks {
-					// a reference within 64 s of 2^32: the compressed records that follow wrap it, sometimes to exactly 0
-					v = uint32(0xFFFFFFFF - 1 - rg.intn(63))
-					nearWrap = true
-				}
+				// a reference within 64 s of 2^32: the compressed records that follow wrap it, sometimes to exactly 0
+				v = uint32(0xFFFFFFFF - 1 - rg.intn(63))
+				nearWrap = true
 			}
 			if v != 0xFFFFFFFF {
 				haveRef = true
@@ -250,7 +230,7 @@ func genTimeStream(rg *rng, st genStats, withQuirks bool) *stream {
 			}
 			ts += uint32(rg.intn(40))
 		case c < 8: // run of compressed records
-			if !haveRef && !withQuirks && rg.chance(9, 10) {
+			if !haveRef && rg.chance(9, 10) {
 				continue
 			}
 			run := 1 + rg.intn(6)
@@ -276,10 +256,8 @@ func genTimeStream(rg *rng, st genStats, withQuirks bool) *stream {
 			}
 			st["compressed_runs_"+bucket(run)]++
 		default: // local timestamp
-			if !haveRef && !withQuirks {
-				// a local timestamp without reference is in the domain (offset 0) but the code then
-				// treats it as the reference: only in the quirk stream
-				continue
+			if !haveRef {
+				st["local_timestamps_without_reference"]++
 			}
 			lv := ts + uint32(rg.intn(7200)) - 3600
 			if rg.chance(1, 10) {
@@ -304,7 +282,7 @@ func runC12(args []string) int {
 		return replayStream("C12", o, true, true, false)
 	}
 	r := newReport("C12", o)
-	r.Rule = "sequences mixing explicit timestamps, compressed-timestamp records (all 32 offsets, rollovers, runs up to 200) and local timestamps, both byte orders; a main stream inside the theorem's side conditions and a second stream with timestamp 0 / power-on-relative timestamps / local timestamps without reference (known findings); " +
+	r.Rule = "sequences mixing explicit timestamps, compressed-timestamp records (all 32 offsets, rollovers, runs up to 200) and local timestamps, both byte orders, including timestamp 0, power-on-relative references, local timestamps without reference and references wrapping 2^32 (the paths of the two repaired defects); " +
 		"non-trivial = at least one compressed or local timestamp decoded; distinct by stream bytes"
 	d, err := startDriver(o.driver)
 	if err != nil {
@@ -316,26 +294,25 @@ func runC12(args []string) int {
 	rg := newRng(o.seed)
 	n := sizes(o.tier, o.boost, 3000, 600000)
 	st := genStats{}
-	timeQuirksInScope = true
-	// the recorded witnesses of the two known findings run first (corpus/known/C12-*.json)
+	// regression list: the witnesses of the two repaired defects (corpus/regression/C12-*.json) run first and are judged
+	// like any other stream: a recurrence is a VIOLATION
 	for _, wit := range []string{"D:5:0:0:0.1.0:0:- M:5:04:- D:1:0:20:3.1.2:0:- D:3:0:34:5.4.134:0:- M:3:00000030:- Z:1:5:64:-",
 		"D:5:0:0:0.1.0:0:- M:5:04:- D:0:0:20:253.4.134,3.1.2:0:- D:1:0:20:3.1.2:0:- M:0:0000000064:- Z:1:5:64:-",
-		// the same defect reached by 32-bit wrap-around: reference 0xFFFFFFFE, compressed offset 0 lands on 0, the next record is unstamped
+		// 32-bit wrap-around: reference 0xFFFFFFFE, compressed offset 0 lands on 0, the next record must be stamped with 5
 		"D:5:0:0:0.1.0:0:- M:5:04:- D:0:0:20:253.4.134,3.1.2:0:- D:1:0:20:3.1.2:0:- M:0:feffffff64:- Z:1:0:64:- Z:1:5:64:-"} {
 		s := parseRecords(wit)
 		decodeAndJudge(r, w, streamCase{s, readerSpec{Data: s.bytes()}}, optSet{}, "", true)
 	}
 	for i := 0; i < n; i++ {
-		quirks := i%5 == 4
-		s := genTimeStream(rg, st, quirks)
+		s := genTimeStream(rg, st)
 		data := s.bytes()
 		rs := readerSpec{Data: data, Sched: makeSched(rg, rg.intn(9), len(data))}
 		impl, model, sr, ok := decodeAndJudge(r, w, streamCase{s, rs}, optSet{}, "", true)
 		if !ok {
 			return 2
 		}
-		if !quirks && len(model.Quirks) > 0 {
-			r.Notes = append(r.Notes, "main stream raised a quirk tag (generator leak)")
+		if len(model.Quirks) > 0 {
+			r.Notes = append(r.Notes, "the model raised a quirk tag (none exists any more)")
 		}
 		r.count(hexs(data), sr.InDomain && impl.ErrClass == 0 && (st["compressed_runs_1-3"]+st["local_timestamps"] > 0))
 		if i < 2 {
